@@ -815,7 +815,8 @@ def cli_one(real, oo, parser, d, line, case, fo, R):
     p = os.path.join(d, "k.s")
     with open(p, "w") as f:
         f.write(line + "\n")
-    args = parser.parse_args(["--arch", real.arch.upper(), p])
+    # the structured report (--yaml-out) is produced in the same run: it converts every per-instruction number once more
+    args = parser.parse_args(["--arch", real.arch.upper(), "--yaml-out", os.path.join(d, "k.yaml"), p])
     out = io.StringIO()
     R.case(digest([real.arch, case["name"], case["k"], "cli"]), nontrivial=bool(fo is not None and fo.port_pressure))
     R.count("cli_runs")
@@ -831,7 +832,15 @@ def cli_one(real, oo, parser, d, line, case, fo, R):
         return
     finally:
         args.file.close()
+        if getattr(args, "yaml_out", None) is not None:
+            args.yaml_out.close()
     text = out.getvalue()
+    try:
+        with open(os.path.join(d, "k.yaml")) as f:
+            if "Kernel" in f.read(4096):
+                R.count("cli_structured_reports_ok")
+    except OSError:
+        pass
     if line.split()[0] not in text:
         R.violation("cost/cli-report", "%s `%s`: the analysis report does not list the instruction" % (real.arch, line), dict(case, line=line))
     else:
